@@ -16,6 +16,8 @@ CONSTANTS
   HU0R <- HU0RAll
   HSCALES <- HScalesAll
   MTOUCHES <- MTouchNone
+  MFAILS <- MFailNone
+  GFAILS <- MFailNone
   HLEN = 2
   PHASEDICTS <- PhaseDictsMapT
   NVER = 2
